@@ -129,6 +129,7 @@ class Engine:
         s.fn_called = set()
         s.const_arrays = {}
         s.concretisations = {}
+        s.logging = False
         s.crc_memo = {}
         s.on_path_end = None
         import models
@@ -564,6 +565,10 @@ class Engine:
         o, off = s.resolve(st, ptr, n, 'write')
         if o.ro: raise Violation('write-to-const', "write to constant object %s" % o.name, s.model_dict(st))
         o = st.wobj(ptr.obj)
+        if s.logging and o.kind == 'global' and type(off) is int:
+            log = st.env.get('store_log')
+            if log is not None:
+                st.env = dict(st.env); st.env['store_log'] = log + ((ptr.obj, off, val, n),)
         if o.arr is not None:
             if isinstance(val, Ptr): raise EngineLimit('pointer store into an array-mode object')
             s.arr_store(o, off if type(off) is int else off[1], val, n); return
@@ -842,7 +847,7 @@ class Engine:
                 s.exec_path(st)
             except Violation as v:
                 s.violations.append({'kind': v.kind, 'msg': v.msg, 'model': v.model, 'where': s.where(st), 'notes': st.notes[-8:], 'choices': st.choices[:],
-                                     'failed_alloc': st.failed_alloc, 'io_failed': st.env.get('io_failed'), 'io_fail_op': st.env.get('io_fail_op'), 'interfered': st.env.get('interfered'), 'steps': st.steps})
+                                     'failed_alloc': st.failed_alloc, 'io_failed': st.env.get('io_failed'), 'io_fail_op': st.env.get('io_fail_op'), 'interfered': st.env.get('interfered'), 'poke': st.env.get('poke'), 'steps': st.steps})
             except PathEnd as e:
                 if e.why == 'end':
                     s.finish_path(st)
@@ -893,7 +898,7 @@ class Engine:
                     return mdl.eval(c, model_completion=True).as_long()
                 obs = [(tag, [ev(c) for c in cells]) for tag, cells in st.obs]
                 s.completed_samples.append({'inputs': s.model_dict(st, mdl), 'obs': obs, 'steps': st.steps, 'choices': st.choices[:], 'notes': st.notes[-6:],
-                                            'failed_alloc': st.failed_alloc, 'io_failed': st.env.get('io_failed'), 'io_fail_op': st.env.get('io_fail_op'), 'interfered': st.env.get('interfered')})
+                                            'failed_alloc': st.failed_alloc, 'io_failed': st.env.get('io_failed'), 'io_fail_op': st.env.get('io_fail_op'), 'interfered': st.env.get('interfered'), 'poke': st.env.get('poke')})
             except (EngineLimit, z3.Z3Exception):
                 pass
 
